@@ -17,7 +17,7 @@ from sigma.conversion.base import TextQueryBackend
 from sigma.conversion.deferred import DeferredTextQueryExpression
 from sigma.conversion.state import ConversionState
 from sigma.processing.pipeline import ProcessingPipeline
-from sigma.types import CompareOperators, SigmaRegularExpression, SigmaRegularExpressionFlag
+from sigma.types import CompareOperators, SigmaRegularExpression, SigmaRegularExpressionFlag, TimestampPart
 
 EXC = {
     "SigmaValueError": sx.SigmaValueError,
@@ -323,6 +323,9 @@ class SimBackendIn(SimBackend):
     and_in_operator: ClassVar[str | None] = "all-in"
     list_separator: ClassVar[str | None] = ", "
     field_not_exists_expression: ClassVar[str | None] = "missing({field})"
+    # timestamp parts: supported for hours only (a backend with a partial table, like partial re_flags)
+    field_timestamp_part_expression: ClassVar[str | None] = "tspart({field}, {timestamp_part})"
+    timestamp_part_mapping: ClassVar[dict | None] = {TimestampPart.HOUR: "h"}
     backend_processing_pipeline: ClassVar[ProcessingPipeline] = ProcessingPipeline()
     output_format_processing_pipeline: ClassVar[dict[str, ProcessingPipeline]] = defaultdict(
         ProcessingPipeline
